@@ -210,7 +210,8 @@ class parse_criteria:
 @contract('hotxlfp.formulas.utils:parse_criteria', props=['C11'])
 class parse_criteria_wildcard:
     # text with * and ? wildcards: the ITEM is matched against the criterion as the pattern
-    cases = [dict(criteria='ab*'), dict(criteria='a?c'), dict(criteria='*x*'), dict(criteria='ab?'), dict(criteria='*bc')]
+    cases = [dict(criteria='ab*'), dict(criteria='a?c'), dict(criteria='*x*'), dict(criteria='ab?'), dict(criteria='*bc'),
+             dict(criteria='a[1]*'), dict(criteria='[!a]?'), dict(criteria='*[x]')]          # [ ] ! are ordinary characters
     ghost = dict(a=STR)
 
     def post(criteria, a, out):
